@@ -701,6 +701,14 @@ func (e *Env) call(n *contract.Call) Val {
 		return VT{term.I(e.x.P.funcID(fn)), tyInt}
 	case "iterpos":
 		return e.iterPos()
+	case "config":
+		// config("name"): a parameter of the finite configuration being unwound
+		k := n.Args[0].(*contract.StrLit).Val
+		v, ok := e.x.Config[k]
+		if !ok {
+			e.fail("config(%q) is not set by the unwinding driver", k)
+		}
+		return VT{term.I(v), tyInt}
 	case "lockheld":
 		v, _ := scalar(e.eval(n.Args[0]))
 		return VT{term.B(e.st.Locks[v.String()]), tyBool}
